@@ -2,6 +2,7 @@ package props
 
 import (
 	"fmt"
+	"math"
 	"strconv"
 	"strings"
 
@@ -284,6 +285,28 @@ func runC08(c *core.Ctx) {
 				c.Obs("key_spelling_cases", 1)
 				c.Distinct("keyspell", name, fmt.Sprint(key))
 			}
+		}
+	}
+	// ---- indices beyond every array: huge unsigned and signed values index nothing; assigning nil really assigns -------------------
+	if c.Shard == 14%c.NShards && c.Begin("extreme indices and nil assignments") {
+		arr := []any{"e0", "e1", "e2"}
+		for _, ix := range []any{uint64(math.MaxUint64), uint64(math.MaxUint64) - 1, uint64(math.MaxUint64) - 2, uint64(1) << 63, uint(math.MaxUint), int64(math.MaxInt64), int64(math.MinInt64), uintptr(math.MaxUint64), uint32(math.MaxUint32), int64(1) << 32, -(int64(1) << 32)} {
+			expectOut(c, e, "[{{ a[i] }}]", map[string]any{"a": arr, "i": ix}, "[]", "index-extreme", "an index that is out of range yields nil, however large it is and whatever integer type carries it", nil)
+			r := core.Run(strict, "[{{ a[i] }}]", map[string]any{"a": arr, "i": ix})
+			c.Eval(1)
+			if !r.Failed() {
+				c.Violate("index-extreme|strict|"+resClass(r), "in strict-variables mode an out-of-range index (nil final value) is an error", map[string]any{"index": gen.Describe(ix), "observed": r.Brief()})
+			}
+			c.Obs("extreme_index_cases", 1)
+			c.Distinct("idxext", gen.Describe(ix))
+		}
+		for _, cs := range []struct{ src, want string }{
+			{"{% assign t = m.missing %}[{{ t }}][{{ t | default: 'd' }}]", "[][d]"}, {"{% assign t = nothing %}[{{ t }}]{% if t == nil %}nil{% endif %}", "[]nil"},
+			{"{% assign t = a[9] %}[{{ t }}]{% assign u = 'x' %}{% assign u = a[9] %}[{{ u }}]", "[][]"}, {"{% assign t = nil %}[{{ t }}]{% assign s = nothing | default: nil %}[{{ s }}]", "[][]"},
+			{"{% for i in (1..2) %}{% assign t = i %}{% assign t = m.missing %}[{{ t }}]{% endfor %}", "[][]"}} {
+			expectOut(c, e, cs.src, map[string]any{"t": "stale", "s": "stale", "m": map[string]any{"k": 1}, "a": arr, "nothing": nil}, cs.want, "assign-nil", "assign binds exactly the value of its right-hand side, nil included: the earlier value of the name is gone", nil)
+			c.Obs("assign_nil_cases", 1)
+			c.Distinct("assignnil", cs.src)
 		}
 	}
 	// ---- whitespace between the smallest parts: filter name and colon, object and dot, brackets and index ---------------------
